@@ -82,6 +82,14 @@ def run(ctx):
         marker = Predictor(graph, lambda x: x.reshape((x.shape[0], -1))[:, 0] * 7 + 1)(st)
         if [int(v) for v in marker.tolist()] != [G.wrap(s[0] * 7 + 1) for s in flat]:        # int64 arithmetic wraps
             ctx.violation("property_fails", "a callable predictor's values come back in a different order or value when batched", case, True)
+        # fractional and negative scores (a trained model returns floats): value and order must not depend on the batch size either
+        frac = lambda x: (x.reshape((x.shape[0], -1))[:, 0] % 8).to(torch.float64) * 0.125 - 0.5       # exact in binary floating point
+        f1 = [float(v) for v in Predictor(graph, frac)(st).tolist()]
+        f2 = [float(v) for v in Predictor(g2, frac)(st).tolist()]
+        want_f = [(s[0] % 8) * 0.125 - 0.5 for s in flat]
+        if f1 != want_f or f2 != want_f:
+            ctx.violation("property_fails", f"a callable predictor with fractional scores returns {f1[:6]} (batched) / {f2[:6]} (one batch), the scores are {want_f[:6]}",
+                          dict(case, claim="fractional_scores"), True)
         cases.append(f"(Build_pred_case {czl(gd['central'])} {czll(flat)} {bs} {czl(ham)} {czl(zero)})")
         metas.append(case)
     # the predictor a search builds BY DEFAULT scores against the central state of the graph it runs on: a sequence of searches, in one
